@@ -18,6 +18,18 @@ CLAIMED = {
         'technique': 'Lean 4 proof (guarded-plan invariant) + exhaustive differential correspondence of file-system outcomes',
         'design': '4/C07',
     },
+    'C08': {
+        'text': 'Proof: C08_inv / C08_reachable (invariant "positional table = id-keyed table, id2index = enumeration of ids" is '
+                'preserved by every public update, hence by every finite history), C08_views_agree / C08_filter_with_ids (under '
+                'the invariant every id-keyed read path returns the row stored at the id\'s position) and C08_mixed_once_sorted '
+                '(flattened mixed collection: permutation of the blocks, strictly ascending ids, consistent id->position map) are '
+                'kernel-checked for all id sets, tables and histories; tied to the tree by differential random histories on real '
+                'FEMAttribute/FEMAttributes objects (state compared after every operation) plus the read-path oracle.',
+        'note': 'pandas combine_first / label assignment semantics are modelled and validated by the correspondence only; '
+                'time-series and ragged attributes are covered by the oracle, not the model',
+        'technique': 'Lean 4 proof (state-machine invariant by induction over operation histories) + differential correspondence of histories',
+        'design': '4/C08',
+    },
     'C13': {
         'text': 'Proof: C13_incidence(_order1), C13_adjacency_elem/node, C13_nhop_reach (n-hop = walks of length 1..n, by induction '
                 'over Boolean matrix powers, with a refinement lemma down to the materialised arrays the driver executes), '
